@@ -1,0 +1,68 @@
+//go:build verif
+
+// Exports for the runtime-monitoring harness in /verif (property C17): lets the
+// harness own one side of an RLPx session. No call site in the package; nothing
+// here changes behaviour.
+
+package p2p
+
+import (
+	"crypto/cipher"
+	"crypto/ecdsa"
+	"hash"
+	"net"
+
+	"gitlab.com/aquachain/aquachain/p2p/discover"
+)
+
+// VerifProtoHandshake is the devp2p hello structure.
+type VerifProtoHandshake = protoHandshake
+
+const (
+	VerifBaseProtocolVersion    = baseProtocolVersion
+	VerifBaseProtocolLength     = baseProtocolLength
+	VerifBaseProtocolMaxMsgSize = baseProtocolMaxMsgSize
+	VerifSnappyProtocolVersion  = snappyProtocolVersion
+	VerifHandshakeMsg           = handshakeMsg
+	VerifDiscMsg                = discMsg
+	VerifPingMsg                = pingMsg
+	VerifPongMsg                = pongMsg
+	VerifEncAuthMsgLen          = encAuthMsgLen
+	VerifEncAuthRespLen         = encAuthRespLen
+	VerifMaxUint24              = maxUint24
+)
+
+// VerifRLPX is the real rlpx transport (what Server.newTransport creates).
+type VerifRLPX struct{ t *rlpx }
+
+// VerifNewRLPX is newRLPX.
+func VerifNewRLPX(fd net.Conn) *VerifRLPX { return &VerifRLPX{t: newRLPX(fd).(*rlpx)} }
+
+// DoEncHandshake is (*rlpx).doEncHandshake: initiator when dial != nil.
+func (v *VerifRLPX) DoEncHandshake(prv *ecdsa.PrivateKey, dial *discover.Node) (discover.NodeID, error) {
+	return v.t.doEncHandshake(prv, dial)
+}
+
+// DoProtoHandshake is (*rlpx).doProtoHandshake.
+func (v *VerifRLPX) DoProtoHandshake(our *VerifProtoHandshake) (*VerifProtoHandshake, error) {
+	return v.t.doProtoHandshake(our)
+}
+
+func (v *VerifRLPX) ReadMsg() (Msg, error)  { return v.t.ReadMsg() }
+func (v *VerifRLPX) WriteMsg(msg Msg) error { return v.t.WriteMsg(msg) }
+func (v *VerifRLPX) Close(err error)        { v.t.close(err) }
+
+// SetSnappy switches message compression of the frame layer (what
+// doProtoHandshake does when the remote hello says version >= 5).
+func (v *VerifRLPX) SetSnappy(on bool) { v.t.rw.snappy = on }
+
+// HasFrameRW reports whether the encryption handshake installed a frame codec.
+func (v *VerifRLPX) HasFrameRW() bool { return v.t.rw != nil }
+
+// FrameState exposes the per-connection cipher and MAC state of the frame
+// codec, so that a harness acting as the remote peer can produce frames with
+// valid MACs and arbitrary content.
+func (v *VerifRLPX) FrameState() (enc, dec cipher.Stream, macCipher cipher.Block, egressMAC, ingressMAC hash.Hash) {
+	rw := v.t.rw
+	return rw.enc, rw.dec, rw.macCipher, rw.egressMAC, rw.ingressMAC
+}
